@@ -9,6 +9,8 @@ Oracles    : implementation only, judged by harness/lib/sqlref.py (plain Python,
                           (scan, scan(parallel=2), scan_batches(1|3|10000), iter_records, each with
                           verify_checksums on/off): all variants agree, and equal the reference
                malformed  enumerated malformed filters x {empty, populated, all-files-pruned table} x all APIs
+               edges      per column type: empty / NULL-only / NULL-containing value sets, comparisons with NULL,
+                          between with NULL or reversed bounds, every is_null alias, conjunctions, all-pruned
                corpus     the hand-confirmed failing inputs (F-C12 NaN pushdown, malformed filter on an empty table)
 Tie        : correspondence of every hand-written model piece with the real code:
                prims      every cexpr constructor evaluated by real pyarrow     vs Model/Filter.v eval3
@@ -30,7 +32,7 @@ from harness.lib.values import DOMAIN, LITERALS, NAN, same, val_json, val_to_coq
 
 LEVEL = "proof"
 THEOREMS = ["C12_compile_correct", "C12_compile_total", "C12_conj", "C12_api_agree", "C12_api_sql", "C12_refused_raises",
-            "C12_strict", "C12_strict_everywhere", "C12_operator_faithful", "C12_operator_table", "C12_project_after",
+            "C12_strict", "C12_strict_everywhere", "C12_operator_faithful", "C12_operator_table", "C12_special_keys", "C12_project_after",
             "C12_api_agree_empty_projection_refuted"]
 GEN_FILES = ["GenFilter.v", "GenFilterConst.v", "GenPrune.v"]
 REQ = ["DS.Model.Value", "DS.Model.FilterExpr", "DS.Gen.GenPrune", "DS.Model.Prune", "DS.Gen.GenFilterConst", "DS.Gen.GenFilter",
@@ -504,6 +506,50 @@ def oracle_malformed(ctx) -> None:
                     report(ctx, verdict, case, flt, None, results, f"malformed ({what}) on {tname} table")
         shutil.rmtree(path, ignore_errors=True)
     ctx.stats["malformed_cases"] = n
+
+
+def edge_filters(kind: str) -> List[List[Tuple[str, Tuple]]]:
+    """Systematic NULL / empty-set / alias edge cases for one column type (column c0; c1 is a long)."""
+    dom = DOMAIN[kind]
+    a, b = dom[0], dom[-1]
+    P = lambda op, arg: ("pair", ("str", op), arg)
+    out = [
+        [("c0", P("in", ("list", [])))], [("c0", P("not_in", ("list", [])))],
+        [("c0", P("in", ("list", [None])))], [("c0", P("not_in", ("list", [None])))],
+        [("c0", P("in", ("list", [None, a])))], [("c0", P("not_in", ("list", [None, a])))],
+        [("c0", P("IN", ("tuple", [a, b, a])))], [("c0", P("Not In", ("tuple", [b])))],
+        [("c0", P("==", ("val", None)))], [("c0", P("!=", ("val", None)))], [("c0", P("<", ("val", None)))],
+        [("c0", P("between", ("tuple", [None, b])))], [("c0", P("between", ("list", [a, None])))],
+        [("c0", P("between", ("tuple", [a, b])))], [("c0", P("BETWEEN", ("tuple", [b, a])))],
+        [("c0", P("is_null", ("val", True)))], [("c0", P("isnull", ("val", None)))],
+        [("c0", P("is_not_null", ("val", True)))], [("c0", P("NotNull", ("val", 0)))], [("c0", P("isnotnull", ("val", True)))],
+        [("c0", ("plain", ("val", a)))], [("c0", P("=", ("val", a)))], [("c0", P("<>", ("val", a)))],
+        [("c0", P("ne", ("val", a))), ("c1", P("is_null", ("val", True)))],
+        [("c0", P("not_in", ("list", [a]))), ("c1", P("in", ("list", [1, None, 2])))],
+        [("c0", P("is_null", ("val", True))), ("c1", P(">=", ("val", 1)))],
+        [("c1", P(">", ("val", 100))), ("c0", P("!=", ("val", a)))],            # every file pruned
+    ]
+    return out
+
+
+def oracle_edges(ctx) -> None:
+    n = 0
+    for kind in KINDS:
+        dom = [canon_cell(kind, v) for v in DOMAIN[kind]]
+        rows = [{"c0": v, "c1": i % 3} for i, v in enumerate(dom)] + [{"c0": None, "c1": 1}, {"c0": dom[0], "c1": None}, {"c0": None, "c1": None}]
+        case = {"cols": ["c0", "c1"], "kinds": [kind, "long"], "files": [rows[:2], rows[2:], [dict(rows[0])]]}
+        path = os.path.join(ctx.scratch, "edge_" + kind)
+        table = make_table(path, case)
+        for k, flt in enumerate(edge_filters(kind)):
+            for columns in ((None, ["c1"]) if ctx.tier == "thorough" else ((None,) if k % 2 else (["c1"],))):
+                n += 1
+                results = run_apis(table, columns, sqlref.filter_py(flt))
+                ctx.count(len(API_VARIANTS), ("edges", kind, repr(flt), repr(columns)))
+                verdict = judge(case, flt, columns, results)
+                if verdict:
+                    report(ctx, verdict, case, flt, columns, results, f"edge cases on a {kind} column")
+        shutil.rmtree(path, ignore_errors=True)
+    ctx.stats["edge_cases"] = n
 
 
 def oracle_e2e(ctx) -> None:
@@ -1019,6 +1065,7 @@ def run(ctx) -> None:
     # implementation-only oracles always run: they are the search for a concrete failing input
     oracle_corpus(ctx)
     oracle_malformed(ctx)
+    oracle_edges(ctx)
     oracle_e2e(ctx)
     try:
         corr_prims(ctx)
